@@ -307,6 +307,9 @@ func rulesC09(c *Ctx) {
 	// nullable makes the check accept nil values and "repair" dangling references by nulling them)
 	ruleIdCursorFiltered(c, "C09.IDCURSOR")
 	ruleFkWiring(c, "C09.WIRING")
+	// what the checks compare against: IsEntityPresent answers for the store's OWN entities (a child store: those
+	// with child data)
+	ruleOwnPresence(c, "C09.PRESENT")
 	ruleC09Phases(c, cg, impls)
 	ruleReseek(c, "C09.RESEEK", c.prodFuncs("boltz"))
 }
